@@ -679,7 +679,11 @@ func walkTier(r *vh.Rng, out *vh.Out, tier string) map[string]interface{} {
 			defer func() { <-sem }()
 			journalStart(3000000+i, opOf(i))
 			res[i] = execWalk(opOf(i))
-			journalDone(3000000+i, res[i])
+			if strings.HasPrefix(opOf(i), "walk ") {
+				journalDone(3000000+i, reduceWalk(res[i])) // what op `walk` answers (the full answer is op walko's)
+			} else {
+				journalDone(3000000+i, res[i])
+			}
 		}(i)
 	}
 	wg.Wait()
